@@ -27,6 +27,10 @@ func vfPlace(o *Output, pos int, param, service []string) (paramReferrer, servic
 	a := Arg{DependsOnParams: param, DependsOnServices: service}
 	switch pos {
 	case 0:
+		if len(o.Params) == 0 {
+			// no parameter to refer from: the referrer is a new parameter, itself declared
+			o.Params = append(o.Params, Param{Name: "referrer"})
+		}
 		o.Params[0].DependsOn = append(o.Params[0].DependsOn, param...)
 		return vfQuote("%" + o.Params[0].Name + "%"), ""
 	case 1:
@@ -52,7 +56,10 @@ func vfOutput() (Output, []string, []string) {
 		Services:   []Service{{Name: s0}, {Name: s1, Todo: true}},
 		Decorators: []Decorator{{Tag: vfStr("dtag", ln), Decorator: "D"}},
 	}
-	return o, []string{p0, p1}, []string{s0, s1}
+	// 0, 1 or 2 declared parameters; 1 or 2 declared services (the first is the referrer)
+	np, ns := vfChoice("params", 3), 1+vfChoice("services", 2)
+	o.Params, o.Services = o.Params[:np], o.Services[:ns]
+	return o, []string{p0, p1}[:np], []string{s0, s1}[:ns]
 }
 
 func vfIn(x string, set []string) bool {
@@ -71,6 +78,9 @@ func VF_C06_params() {
 	x := vfStr("ref", vfBound("c06.len", 4, 8))
 	pos := vfChoice("pos", 5)
 	referrer, _ := vfPlace(&o, pos, []string{x}, nil)
+	if pos == 0 && len(params) == 0 {
+		params = []string{"referrer"}
+	}
 	err := ValidateParamsExist(o)
 	if err != nil {
 		vfObserve("diagnostics", err.Error())
@@ -118,6 +128,9 @@ func VF_C06_two() {
 	x, y := vfStr("x", ln), vfStr("y", ln)
 	px, py := vfChoice("px", 4), 1+vfChoice("py", 3)
 	vfPlace(&o, px, []string{x, x}, nil)
+	if px == 0 && len(params) == 0 {
+		params = []string{"referrer"}
+	}
 	vfPlace(&o, py, []string{y}, []string{y})
 	perr, serr := ValidateParamsExist(o), ValidateServicesExist(o)
 	wantP, wantS := 0, 0
